@@ -8,51 +8,29 @@ through the model of `p2p.Conn` (any flush placement is fixed by the code; any
 writer-goroutine schedule; any read fragmentation of the transport), are
 received as exactly the same typed messages, so the message-level theorem
 `C02_both_get_f` is independent of the transport.
+
+The typed messages `Msg.toVal / Msg.ofVal / Msg.Fits`, the session model
+`run2Conn` (the message-level protocol with every flight going through the send
+half of one `p2p.Conn`, a fragmenting transport and the receive half of the
+other `p2p.Conn`, the receive halves persisting over the session) are in
+Model/Proto2Conn.lean; helper lemmas in Proofs/Proto2Conn.lean.
+
+Quantification added by this file: every flight of every total size (there is
+no hypothesis relating a message or a flight to `writeBufSize = 64 KiB` or
+`readBufSize = 1 MiB`: garbled tables of many MiB, more than 64 KiB of input
+labels are instances), every writer schedule of every flight, every read
+fragmentation of both directions (`Frag = Nat → Nat`, the size the transport
+returns on its i-th `Read`: single bytes, reads ending any distance before the
+end of the read window, whole flushes, ... are instances), every state of a
+receive half that has nothing unread.  Domain guard: counts and payload lengths
+below 2^32 (the Go code truncates with `uint32(val)` beyond).
 -/
 import MpcVerif.Props.C02
 import MpcVerif.Props.C11
+import MpcVerif.Proofs.Proto2Conn
 
 namespace Mpc
 open Conn
-
-/-- A protocol message as a typed value of the connection layer
-(`SendData` / `SendUint32` / `SendLabel`). -/
-def Msg.toVal : Msg (BitVec 128) → Val
-  | .data bs => .data (ByteArray.mk bs.toArray)
-  | .u32 n => .u32 n
-  | .label l => .label l.toNat
-
-/-- Back from a received typed value. -/
-def Msg.ofVal : Val → Option (Msg (BitVec 128))
-  | .data d => some (.data d.data.toList)
-  | .u32 n => some (.u32 n)
-  | .label n => some (.label (BitVec.ofNat 128 n))
-  | _ => none
-
-theorem Msg.ofVal_toVal (m : Msg (BitVec 128)) : Msg.ofVal m.toVal = some m := by
-  cases m with
-  | data bs => simp [Msg.toVal, Msg.ofVal]
-  | u32 n => rfl
-  | label l => simp [Msg.toVal, Msg.ofVal]
-
-/-- Domain guard of the typed API for a protocol message: counts below 2^32,
-payloads shorter than 2^32 bytes (labels are 128-bit by type). -/
-def Msg.Fits : Msg (BitVec 128) → Prop
-  | .data bs => bs.length < 2 ^ 32
-  | .u32 n => n < 2 ^ 32
-  | .label _ => True
-
-theorem Msg.toVal_valid (m : Msg (BitVec 128)) (h : m.Fits) : m.toVal.Valid := by
-  cases m with
-  | data bs => simpa [Msg.toVal, Val.Valid, Msg.Fits, ByteArray.size] using h
-  | u32 n => simpa [Msg.toVal, Val.Valid, Msg.Fits] using h
-  | label l => simp [Msg.toVal, Val.Valid]; exact l.isLt
-
-theorem Msg.mapM_ofVal_toVal (ms : List (Msg (BitVec 128))) :
-    (ms.map Msg.toVal).mapM Msg.ofVal = some ms := by
-  induction ms with
-  | nil => rfl
-  | cons m ms ih => simp [List.mapM_cons, Msg.ofVal_toVal, ih]
 
 /-- **C02 over a connection.**  Any list of protocol messages (e.g. the
 garbler's first flight, the evaluator's output labels), sent with the typed
@@ -85,5 +63,161 @@ theorem C02_messages_over_conn (sch : Sched) (frag : Frag) (ms : List (Msg (BitV
   rw [hov] at h1
   simp only [List.map_map, Function.comp_def] at h1
   exact h1
+
+/-- **One flight, any size, any fragmentation.**  A flight of protocol
+messages of any total size - no relation to the 64 KiB write buffer or the
+1 MiB read window is assumed - sent with the typed sends and flushed under ANY
+writer schedule, read from a transport with ANY read fragmentation by a receive
+half in ANY state that has nothing unread (fresh, or after earlier flights of
+the same session), arrives as exactly the same messages, no error branch is
+taken and nothing is left unread. -/
+theorem C02_flight_over_conn (sch : Sched) (frag : Frag) (r : Recv) (ms : List (Msg (BitVec 128)))
+    (hfit : ∀ m ∈ ms, m.Fits)
+    (hr : r.rs ≤ r.buf.size ∧ r.buf.size ≤ readBufSize ∧ r.pos ≤ r.pend.size)
+    (hu : r.unread = ByteArray.empty) :
+    ∃ r', recvFlight frag r (flightBytes sch ms) ms = .ok (ms, r') ∧
+      (r'.rs ≤ r'.buf.size ∧ r'.buf.size ≤ readBufSize ∧ r'.pos ≤ r'.pend.size) ∧
+      r'.unread = ByteArray.empty := by
+  obtain ⟨r', e, i, u⟩ := recvFlight_ok sch frag r ms hfit ⟨hr.1, hr.2.1, hr.2.2⟩ hu
+  exact ⟨r', e, ⟨i.rs_le, i.buf_le, i.pos_le⟩, u⟩
+
+/-- Non-vacuity, and the size class explicitly: a flight of 70000 labels
+(1 120 000 bytes - more than the 1 MiB read window, 18 write buffers) is inside
+the theorem, for every schedule and every fragmentation. -/
+example (sch : Sched) (frag : Frag) :
+    16 * (List.replicate 70000 (Msg.label 5#128)).length > readBufSize ∧
+    ∃ r', recvFlight frag (Recv.init ByteArray.empty)
+        (flightBytes sch (List.replicate 70000 (Msg.label 5#128)))
+        (List.replicate 70000 (Msg.label 5#128)) = .ok (List.replicate 70000 (Msg.label 5#128), r') := by
+  refine ⟨by rw [List.length_replicate]; decide, ?_⟩
+  obtain ⟨r', e, _, _⟩ := C02_flight_over_conn sch frag (Recv.init ByteArray.empty)
+    (List.replicate 70000 (Msg.label 5#128))
+    (fun m hm => by rw [List.eq_of_mem_replicate hm]; trivial)
+    ⟨by simp [Recv.init], by simp [Recv.init], by simp [Recv.init]⟩ (unread_init _)
+  exact ⟨r', e⟩
+
+theorem evaluatorEval_length (p : Circuit2) (H : Hash (BitVec 128)) (rows : List (List (BitVec 128)))
+    (inl otl ol : List (BitVec 128)) (h : evaluatorEval p H rows inl otl = .ok ol) :
+    ol.length = p.c.nOut := by
+  simp only [evaluatorEval] at h
+  split at h
+  · cases h
+  · cases h; simp
+
+/-- **C02 over two connections.**  For every well-formed two-party circuit,
+inputs, key derivation, offset, label randomness and every OT satisfying
+`OtSpec` (as in `C02_both_get_f`), and for EVERY connection environment - the
+writer schedule of every flight, the read fragmentation of both directions -
+the session in which every flight goes through `p2p.Conn` ends without error
+at either party, both parties return the plain evaluation of the circuit split
+per declared output, and both receive halves end with nothing unread.  No
+hypothesis relates the size of any message or flight to the buffer sizes. -/
+theorem C02_both_get_f_over_conn (p : Circuit2) (hwf : p.WF = true)
+    (mkH : List UInt8 → Hash (BitVec 128)) (key : List UInt8) (r : BitVec 128)
+    (hr : LabelAlg.sbit r = true) (inl : Nat → BitVec 128) (x y : List Bool) (hx : x.length = p.n0)
+    (ot : OtFun (BitVec 128)) (hot : OtSpec ot)
+    (hdom : key.length < 2 ^ 32 ∧ p.c.gates.length < 2 ^ 32 ∧ p.n0 < 2 ^ 32 ∧ p.n1 < 2 ^ 32 ∧
+      p.c.nOut < 2 ^ 32)
+    (env : ConnEnv) :
+    ∃ rE rG, run2Conn p mkH key r inl x y ot env = .ok ((p.expected x y, p.expected x y), rE, rG) ∧
+      rE.unread = ByteArray.empty ∧ rG.unread = ByteArray.empty := by
+  obtain ⟨hk, hg, hn0, hn1, hno⟩ := hdom
+  have hrun := C02_both_get_f p hwf mkH key r hr inl x y hx ot hot
+  simp only [run2] at hrun
+  rw [evaluatorRecv1_flight1] at hrun
+  simp only [ne_eq, not_true_eq_false, or_self, if_false] at hrun
+  obtain ⟨rE, e0, iE, uE⟩ := recvFlight_ok (env.sch 0) env.fragGE (Recv.init ByteArray.empty)
+    (garblerFlight1 p key (p.c.garble (mkH key) r inl) x) (flight1_fits p key _ r inl x hk hg)
+    RInv_fresh.1 RInv_fresh.2
+  obtain ⟨rG, e1, iG, uG⟩ := recvFlight_ok (env.sch 1) env.fragEG (Recv.init ByteArray.empty)
+    [.u32 p.n0, .u32 p.n1]
+    (by intro m hm
+        simp only [List.mem_cons, List.not_mem_nil, or_false] at hm
+        rcases hm with rfl | rfl
+        · exact hn0
+        · exact hn1)
+    RInv_fresh.1 RInv_fresh.2
+  simp only [run2Conn]
+  rw [e0]
+  simp only
+  rw [evaluatorRecv1_flight1]
+  simp only
+  rw [e1]
+  simp only [Circuit2.acceptsOtRange, beq_self_eq_true, Bool.and_self, Bool.not_true,
+    Bool.false_eq_true, if_false]
+  split at hrun
+  · cases hrun
+  · next outLabels hE0 =>
+    -- the same statement with the instances as `run2Conn` (specialised to `BitVec 128`) elaborates them
+    have hE : evaluatorEval p (mkH key) (p.c.garble (mkH key) r inl).rows
+        (garblerInputLabels p (p.c.garble (mkH key) r inl) x)
+        (ot ((List.range p.n1).map fun i => (p.c.garble (mkH key) r inl).wires.get (p.n0 + i))
+          ((List.range p.n1).map fun i => y.getD i false)) = .ok outLabels := hE0
+    rw [hE]
+    simp only
+    have hlen := evaluatorEval_length p _ _ _ _ _ hE
+    obtain ⟨rG', e2, iG', uG'⟩ := recvFlight_ok (env.sch 2) env.fragEG rG (outLabels.map .label)
+      (by intro m hm; obtain ⟨l, _, rfl⟩ := List.mem_map.mp hm; trivial) iG uG
+    rw [e2]
+    simp only
+    have hrl := recvLabels_roundtrip outLabels ([] : List (Msg (BitVec 128)))
+    rw [List.append_nil, hlen] at hrl
+    rw [hrl]
+    simp only
+    split at hrun
+    · cases hrun
+    · next bits hD0 =>
+      have hD : garblerDecode p (p.c.garble (mkH key) r inl) 0 outLabels = .ok bits := hD0
+      rw [hD]
+      simp only
+      have hbl : bits.length = p.c.nOut := by
+        rw [garblerDecode_length p _ outLabels 0 bits hD, hlen]
+      have hfit3 : ∀ m ∈ [Msg.data (natToBytesBE (packLE bits))], m.Fits := by
+        intro m hm
+        simp only [List.mem_cons, List.not_mem_nil, or_false] at hm
+        subst hm
+        have h1 := natToBytesBE_length bits.length (packLE bits) (packLE_lt bits)
+        simp only [Msg.Fits]
+        omega
+      obtain ⟨rE', e3, _, uE'⟩ := recvFlight_ok (env.sch 3) env.fragGE rE
+        [.data (natToBytesBE (packLE bits))] hfit3 iE uE
+      rw [e3]
+      simp only
+      refine ⟨rE', rG', ?_, uE', uG'⟩
+      simp only [Except.ok.injEq, Prod.mk.injEq] at hrun
+      rw [hrun.1, hrun.2]
+
+/-- **The result does not depend on the transport.**  Two runs of the same
+session (same circuit, inputs, randomness, OT) over ANY two connection
+environments - different writer schedules, different read fragmentations in
+either direction, hence different positions of every message relative to the
+64 KiB write buffers and the 1 MiB read window - give both parties the same
+values, the plain evaluation; neither takes an error branch. -/
+theorem C02_result_independent_of_transport (p : Circuit2) (hwf : p.WF = true)
+    (mkH : List UInt8 → Hash (BitVec 128)) (key : List UInt8) (r : BitVec 128)
+    (hr : LabelAlg.sbit r = true) (inl : Nat → BitVec 128) (x y : List Bool) (hx : x.length = p.n0)
+    (ot : OtFun (BitVec 128)) (hot : OtSpec ot)
+    (hdom : key.length < 2 ^ 32 ∧ p.c.gates.length < 2 ^ 32 ∧ p.n0 < 2 ^ 32 ∧ p.n1 < 2 ^ 32 ∧
+      p.c.nOut < 2 ^ 32)
+    (env env' : ConnEnv) :
+    (run2Conn p mkH key r inl x y ot env).map (·.1) = .ok (p.expected x y, p.expected x y) ∧
+    (run2Conn p mkH key r inl x y ot env').map (·.1) = .ok (p.expected x y, p.expected x y) := by
+  obtain ⟨_, _, h, _⟩ := C02_both_get_f_over_conn p hwf mkH key r hr inl x y hx ot hot hdom env
+  obtain ⟨_, _, h', _⟩ := C02_both_get_f_over_conn p hwf mkH key r hr inl x y hx ot hot hdom env'
+  rw [h, h']
+  exact ⟨rfl, rfl⟩
+
+/-! Non-vacuity: the hypotheses hold for the example circuit (two outputs of
+widths 1 and 2), a 32-byte key, an offset with the select bit set; the
+environment is arbitrary - e.g. single-byte reads towards the evaluator, reads
+of 1 MiB minus 3 bytes towards the garbler. -/
+example : exampleCircuit2.WF = true := by decide
+example : LabelAlg.sbit (setS 5#128) = true := setS_msb _
+example : (List.replicate 32 (7 : UInt8)).length < 2 ^ 32 ∧ exampleCircuit2.c.gates.length < 2 ^ 32 ∧
+    exampleCircuit2.n0 < 2 ^ 32 ∧ exampleCircuit2.n1 < 2 ^ 32 ∧ exampleCircuit2.c.nOut < 2 ^ 32 := by decide
+example (mkH : List UInt8 → Hash (BitVec 128)) (inl : Nat → BitVec 128) (sch : Nat → Sched) :=
+  C02_both_get_f_over_conn exampleCircuit2 (by decide) mkH (List.replicate 32 7) (setS 5#128) (setS_msb _) inl
+    [true, false] [true] rfl _ idealOt_spec (by decide)
+    { sch := sch, fragGE := fun _ => 1, fragEG := fun _ => readBufSize - 3 }
 
 end Mpc
